@@ -94,7 +94,7 @@ func SearchSessionC12(t *tape.Tape) *core.RunResult {
 		}
 	}
 	var ns []int
-	limit := 250
+	limit := core.Scale(250, 1500)
 	if P <= limit {
 		for n := 1; n <= P; n++ {
 			ns = append(ns, n)
